@@ -53,6 +53,8 @@ class C03(Check):
     # ------------------------------------------------------------------------------------------------
     def generate(self, rng, stratum, tier):
         spec = models.gen_net(rng, hier=rng.random() < 0.25)
+        if rng.random() < 0.25:
+            models.add_edge_templates(rng, spec, p=0.6)
         dt = rng.choice(DTS)
         m = rng.randint(1, 7)
         kmax = max(2, min(60, int(400 // m), int(8.0 / (m * dt)) or 2))
